@@ -75,24 +75,25 @@ func (am *YAMLAccountManager) Create(account hotline.Account) error {
 	am.mu.Lock()
 	defer am.mu.Unlock()
 
-	// Create account file, returning an error if one already exists.
-	file, err := os.OpenFile(
-		filepath.Join(am.accountDir, path.Join("/", account.Login+".yaml")),
-		os.O_CREATE|os.O_EXCL|os.O_WRONLY, 0644,
-	)
-	if err != nil {
-		return fmt.Errorf("create account file: %w", err)
+	// Return an error if an account file already exists.
+	accountPath := filepath.Join(am.accountDir, path.Join("/", account.Login+".yaml"))
+	if _, err := os.Stat(accountPath); err == nil {
+		return fmt.Errorf("create account file: %w", os.ErrExist)
 	}
-	defer file.Close()
 
 	b, err := yaml.Marshal(account)
 	if err != nil {
 		return fmt.Errorf("marshal account to YAML: %v", err)
 	}
 
-	_, err = file.Write(b)
-	if err != nil {
+	// Write the complete account to a temporary file and rename it to its final name, so that a partially written
+	// account file is never visible under the final name.
+	tmpPath := accountPath + ".tmp"
+	if err := os.WriteFile(tmpPath, b, 0644); err != nil {
 		return fmt.Errorf("write account file: %w", err)
+	}
+	if err := os.Rename(tmpPath, accountPath); err != nil {
+		return fmt.Errorf("create account file: %w", err)
 	}
 
 	am.accounts[account.Login] = account
